@@ -213,8 +213,11 @@ static void run_codec_cases(int L) {
             else {
                 if (out.len != l0 + rn || memcmp(out.buffer + l0, ref, rn)) FAIL("encode(len %d, code %lu, path %d): differs from the reference", len, code, path);
                 for (size_t i = 0; i < l0; i++) if (out.buffer[i] != 'P') FAIL("encode: earlier byte %zu changed", i);
-                struct aws_byte_buf dec; aws_byte_buf_init(&dec, A, 1); struct aws_byte_cursor ec = aws_byte_cursor_from_array(out.buffer + l0, out.len - l0);
-                if (aws_byte_buf_append_decoding_uri(&dec, &ec) || dec.len != (size_t)len || memcmp(dec.buffer, in, (size_t)len)) FAIL("decode(encode(x)) != x (len %d, code %lu)", len, code);
+                /* decode APPENDS: start from a buffer that already holds `pre` bytes */
+                struct aws_byte_buf dec; aws_byte_buf_init(&dec, A, pre + 1); memset(dec.buffer, 'Q', dec.capacity); dec.len = pre;
+                struct aws_byte_cursor ec = aws_byte_cursor_from_array(out.buffer + l0, out.len - l0);
+                if (aws_byte_buf_append_decoding_uri(&dec, &ec) || dec.len != pre + (size_t)len || memcmp(dec.buffer + pre, in, (size_t)len)) FAIL("decode(encode(x)) != x (len %d, code %lu, %zu bytes before)", len, code, pre);
+                for (size_t i = 0; i < pre && i < dec.len; i++) if (dec.buffer[i] != 'Q') FAIL("decode: earlier byte %zu changed", i);
                 aws_byte_buf_clean_up(&dec);
             }
             aws_byte_buf_clean_up(&out);
